@@ -2,7 +2,7 @@ SPECIFICATION MCSpec
 CONSTANTS P = 7
  NMin = 4
  NMax = 4
- TMax = 3
+ TMax = 4
  KeyMode = "id"
  VerifyMode = "pairing"
 INVARIANTS TypeOK Algebra
